@@ -119,7 +119,7 @@ func (x *Exec) Assert(st *State, o *Oblig, goal Term) {
 func (x *Exec) Cover(st *State, name string, pos token.Pos) {
 	o := x.oblig("cover["+name+"]", "cover", nil, pos)
 	o.Expect = "sat"
-	if len(o.VCs) >= 6 {
+	if len(o.VCs) >= 400 {
 		return
 	}
 	o.VCs = append(o.VCs, &VC{Assumes: st.assume.slice(), Goal: False, Path: strings.Join(st.path, ";")})
@@ -192,6 +192,23 @@ func (x *Exec) setHeap(st *State, key string, val Term) {
 	st.Assume(Eq(n, val))
 	st.heaps[key] = n
 	st.heapTop[key] = st.top
+	delete(st.fwd, key)
+}
+
+// storeAt writes value v at ref in the field/cell heap key and remembers it for forwarding.
+func (x *Exec) storeAt(st *State, key string, ref, v Term) {
+	x.setHeap(st, key, Store(x.heap(st, key), ref, v))
+	st.fwd[key] = map[string]Term{ref.S: v}
+}
+
+// loadAt reads ref from heap key, forwarding the last store to the same (syntactic) reference.
+func (x *Exec) loadAt(st *State, key string, ref Term) Term {
+	if m, ok := st.fwd[key]; ok {
+		if v, ok := m[ref.S]; ok {
+			return v
+		}
+	}
+	return Select(x.heap(st, key), ref)
 }
 
 // topOf returns the allocation frontier bounding every reference stored under key.
@@ -330,7 +347,7 @@ func (x *Exec) loadStruct(st *State, ref Term, t types.Type) Term {
 	args := make([]Term, len(si.fields))
 	for i := range si.fields {
 		k, _ := x.fieldHeapKey(t, i)
-		args[i] = Select(x.heap(st, k), ref)
+		args[i] = x.loadAt(st, k, ref)
 	}
 	return app(si.name, si.ctor, args...)
 }
@@ -339,7 +356,7 @@ func (x *Exec) storeStruct(st *State, ref Term, t types.Type, v Term) {
 	si := x.D.StructInfo(t)
 	for i, f := range si.fields {
 		k, _ := x.fieldHeapKey(t, i)
-		x.setHeap(st, k, Store(x.heap(st, k), ref, app(f.sort, f.acc, v)))
+		x.storeAt(st, k, ref, app(f.sort, f.acc, v))
 	}
 }
 
@@ -350,7 +367,7 @@ func (x *Exec) Load(st *State, p SymVal, elem types.Type) Term {
 		if isStruct(elem) {
 			return x.loadStruct(st, a, elem)
 		}
-		return Select(x.heap(st, x.cellHeapKey(elem)), a)
+		return x.loadAt(st, x.cellHeapKey(elem), a)
 	case *Addr:
 		switch a.Kind {
 		case aLocal:
@@ -361,7 +378,7 @@ func (x *Exec) Load(st *State, p SymVal, elem types.Type) Term {
 			}
 			return nav(root, a.Path)
 		case aField, aCell:
-			return nav(Select(x.heap(st, a.Key), a.Ref), a.Path)
+			return nav(x.loadAt(st, a.Key, a.Ref), a.Path)
 		case aElem:
 			return nav(Select(Select(x.heap(st, a.Key), a.Ref), a.Idx), a.Path)
 		}
@@ -377,7 +394,7 @@ func (x *Exec) StoreTo(st *State, p SymVal, elem types.Type, v Term) {
 			return
 		}
 		k := x.cellHeapKey(elem)
-		x.setHeap(st, k, Store(x.heap(st, k), a, v))
+		x.storeAt(st, k, a, v)
 		return
 	case *Addr:
 		switch a.Kind {
@@ -389,6 +406,10 @@ func (x *Exec) StoreTo(st *State, p SymVal, elem types.Type, v Term) {
 			st.fr.locals[a.Alloc] = upd(root, a.Path, v)
 			return
 		case aField, aCell:
+			if len(a.Path) == 0 {
+				x.storeAt(st, a.Key, a.Ref, v)
+				return
+			}
 			h := x.heap(st, a.Key)
 			x.setHeap(st, a.Key, Store(h, a.Ref, upd(Select(h, a.Ref), a.Path, v)))
 			return
@@ -432,6 +453,7 @@ func (x *Exec) havocKey(st *State, key string) {
 	n := x.D.Fresh("H_"+key, x.mustSort(key))
 	st.heaps[key] = n
 	st.heapTop[key] = st.top
+	delete(st.fwd, key)
 	ks, _, _ := arrParts(n.Sort)
 	if ks == SInt {
 		for _, r := range sortedKeys(st.fresh) {
@@ -646,6 +668,9 @@ func (x *Exec) analyzeLoops() {
 				if al, ok := ld.X.(*ssa.Alloc); ok && al.Comment == "rangeindex" {
 					li.rangeIdx = al
 				}
+			}
+			if b, ok := in.(*ssa.BinOp); ok && b.Op == token.LSS && li.rangeIdx != nil {
+				li.rangeLen = b.Y
 			}
 		}
 		x.computeLoopMods(li)
